@@ -140,6 +140,8 @@ def well_formed(d):
     python operators need at least one AST operand, etc."""
     o = base(d[0])
     if o in bvsem.BIN or o in bvsem.CMP:
+        if len(d) != 3:
+            return False  # two operands exactly: a longer list would be silently cut by build() and the references
         kinds = [base(a[0]) for a in d[1:3]]
         if all(k in ("int", "b2bv") for k in kinds):
             return False
